@@ -3,6 +3,7 @@ package query
 import (
 	"context"
 	"errors"
+	"math"
 	"strings"
 	"sync"
 
@@ -244,7 +245,15 @@ func (c *Cursor) Fetch(name parser.Identifier, position int, number int) ([]valu
 	case parser.ABSOLUTE:
 		c.index = number
 	case parser.RELATIVE:
-		c.index = c.index + number
+		// c.index is within [-1, RecordLen()]: an offset whose sum would overflow addresses a position beyond that end of the view
+		switch {
+		case 0 < number && math.MaxInt-number < c.index:
+			c.index = c.view.RecordLen()
+		case number < 0 && c.index < math.MinInt-number:
+			c.index = -1
+		default:
+			c.index = c.index + number
+		}
 	case parser.FIRST:
 		c.index = 0
 	case parser.LAST:
